@@ -1,10 +1,14 @@
 /- relic_driver: one operation per input line, one canonical result per output line -/
 import Relic.Driver.C12
+import Relic.Driver.PE
+import Relic.Driver.C20
 open Relic
 
 def dispatch (line : String) : String :=
   match words line with
   | "C12" :: rest => Relic.Driver.C12.handle rest
+  | "PE" :: rest => Relic.Driver.PE.handle rest
+  | "C20" :: rest => Relic.Driver.C20.handle rest
   | _ => "bad-op"
 
 partial def loop (h : IO.FS.Stream) (out : IO.FS.Stream) : IO Unit := do
